@@ -407,7 +407,49 @@ def with_layout(draw, strat):
             case['out'] = m
         if steered:
             case['steered'] = steered
+    # base-point classes that only matter RELATIVE to the data: neighbouring base points per direction (a finite
+    # difference stencil / continuation steps in one UTPM: different, but numpy.allclose), and the whole matrix polynomial
+    # scaled by a power of two to tiny magnitude (all entries < 1e-8: every absolute threshold misfires; the factors must
+    # be the exactly scaled factors of the unscaled problem).  Only for the buckets whose structure lives in A_0 alone.
+    op, cls = case['op'], case.get('cls')
+    eligible = (not np.iscomplexobj(case['A'])) and (
+        (op != 'eig' and cls in (None, 'distinct')) or (op == 'eig' and cls in ('real', 'complex') and case['A'].shape[0] <= 2))
+    if eligible:
+        v = draw(st.sampled_from([None] * 5 + ['neighbour', 'neighbour', 'tiny', 'tiny']))
+        A = case['A']
+        D, P, M, N = A.shape
+        if v == 'neighbour' and P > 1:
+            h = draw(st.sampled_from([1e-6, 1e-7, 1e-9]))
+            A = A.copy()
+            for p in range(1, P):
+                E = draw(gen.float_array((M, N), gen.interval_union((-1.0, 1.0)), sparse=False))
+                if case['op'] in ('cholesky', 'eigh'):
+                    E = 0.5 * (E + E.T)
+                A[0, p] = A[0, 0] + h * E
+            case['A'] = A
+            case['base'] = 'neighbour,h=%g' % h
+        elif v == 'tiny':
+            k = draw(st.sampled_from([30, 40, 50, 60]))
+            if op == 'qr' and M >= N and k > 30 and KF.is_open('KF-qr-epsilon-ignored'):
+                # UTPM.qr drops its epsilon argument for M >= N: the scaled rank threshold cannot be passed, so keep
+                # |diag R_0| above the default 1e-14 while the finding is open
+                k = 30
+                case['steered'] = case.get('steered', []) + ['KF-qr-epsilon-ignored']
+            case['A'] = A * 2.0 ** -k
+            case['tiny_k'] = k
+            case['base'] = 'tiny,2^-%d' % k
     return case
+
+
+# absolute thresholds that are documented PARAMETERS of the methods: scaled with the data for tiny-magnitude input
+EPSILON = {'qr': 1e-14, 'eigh': 1e-8, 'svd': 1e-8}
+
+
+def _eps_kwargs(case):
+    k = case.get('tiny_k')
+    if k and case['op'] in EPSILON:
+        return {'epsilon': EPSILON[case['op']] * 2.0 ** -k}
+    return {}
 
 
 def _call(case, fglobal, fclass, shapes, stats, dtype=float, declared=(), single=False):
@@ -420,11 +462,31 @@ def _call(case, fglobal, fclass, shapes, stats, dtype=float, declared=(), single
     if case.get('out'):
         bufs = tuple(UTPM(R.out_buffer(s, dt, case['out'])) for s, dt in
                      zip(shapes, dtype if isinstance(dtype, (tuple, list)) else [dtype] * len(shapes)))
-        ret = R.guard_declared(fclass, X, out=(bufs[0] if single else bufs), declared=declared)
+        ret = R.guard_declared(fclass, X, out=(bufs[0] if single else bufs), declared=declared, **_eps_kwargs(case))
     else:
-        ret = R.guard_declared(fglobal, X, declared=declared)
+        ret = R.guard_declared(fglobal, X, declared=declared, **_eps_kwargs(case))
     R.assert_unchanged(X, case['A'], case['op'])
     return ret, bufs
+
+
+def _scaling(case, ret, fglobal, names, factors, stats):
+    """tiny-magnitude class: A = 2^-k B.  The factorization of A must be the exactly scaled factorization of B
+    (powers of two commute with every floating point operation involved): factor_i(A) = factors[i] * factor_i(B).
+    Both sides come from the code under test (metamorphic relation); the predicates above validate the A side."""
+    k = case.get('tiny_k')
+    if not k:
+        return
+    big = guard(fglobal, UTPM(case['A'] * 2.0 ** k))
+    big = big if isinstance(big, (tuple, list)) else (big,)
+    ret = ret if isinstance(ret, (tuple, list)) else (ret,)
+    for r, b, nm, f in zip(ret, big, names, factors(2.0 ** -k)):
+        rd, bd = _utpm(r, nm), _utpm(b, nm) * f
+        if rd.shape != bd.shape:
+            raise Violation('%s scaling: %s has shape %s for 2^-%d*B and %s for B' % (case['op'], nm, rd.shape, k, bd.shape))
+        D = rd.shape[0]
+        sc = np.maximum.accumulate(np.abs(bd).reshape(D, -1).max(axis=1)) if bd.size else np.ones(D)
+        R.eq_check(rd, bd, np.maximum(sc, 1e-300), 1e-10, stats,
+                   '%s: %s of 2^-%d*B versus the scaled %s of B' % (case['op'], nm, k, nm))
 
 
 def _result_sets(ret, bufs, names):
@@ -452,7 +514,8 @@ def _zeroth(got, ref, stats, what):
     ref = np.asarray(ref)
     if got.shape != ref.shape:
         raise Violation('%s: shape %s versus %s' % (what, got.shape, ref.shape))
-    e = float(np.max(np.abs(got - ref))) / max(1.0, float(np.max(np.abs(ref)))) if ref.size else 0.0
+    m = float(np.max(np.abs(ref))) if ref.size else 0.0
+    e = float(np.max(np.abs(got - ref))) / (m if m > 0 else 1.0) if ref.size else 0.0      # relative: tiny-magnitude inputs
     if not np.isfinite(e) or e > TOL0:
         raise Violation('%s: zeroth coefficient differs from the NumPy/SciPy factorization by %.2e (relative)' % (what, e))
 
@@ -491,6 +554,7 @@ def prop_qr(case, stats):
             q0, r0 = scipy.linalg.qr(Ap[0]) if full else np.linalg.qr(Ap[0])
             _zeroth(Qp[0], q0, stats, what + ': Q')
             _zeroth(Rp[0], r0, stats, what + ': R')
+    _scaling(case, ret, algopy.qr_full if full else algopy.qr, ('Q', 'R'), lambda c: (1.0, c), stats)
 
 
 def prop_cholesky(case, stats):
@@ -506,6 +570,7 @@ def prop_cholesky(case, stats):
             R.eq_check(R.smul(Lp, R.sT(Lp)), Ap, R.term_scale(R.smul_abs(Lp, R.sT(Lp)), Ap), TOL, stats, what + ': L L^T = A')
             R.zero_check(Lp, up, R.term_scale(Lp), TOL, stats, what + ': L lower triangular')
             _zeroth(Lp[0], np.linalg.cholesky(Ap[0]), stats, what + ': L')
+    _scaling(case, ret, algopy.cholesky, ('L',), lambda c: (np.sqrt(c),), stats)
 
 
 def _check_LU(L, U, PA, stats, what):
@@ -540,6 +605,7 @@ def prop_lu(case, stats):
             _zeroth(w0, p0, stats, what + ': P')
             _zeroth(L[0, p], l0, stats, what + ': L')
             _zeroth(U[0, p], u0, stats, what + ': U')
+    _scaling(case, ret, algopy.lu, ('W', 'L', 'U'), lambda c: (1.0, 1.0, c), stats)
 
 
 def _apply_pivots(Ap, piv):
@@ -589,6 +655,11 @@ def prop_lu2(case, stats):
             lu0, piv0 = scipy.linalg.lu_factor(A[0, p])
             _zeroth(piv, piv0, stats, what + ': piv')
             _zeroth(np.tril(L[0, p], -1) + U[0, p], lu0, stats, what + ': LU')
+    if case['op'] == 'lu2':
+        _scaling(case, ret, UTPM.lu2, names, lambda c: (1.0, 1.0, c), stats)
+    else:
+        up = np.triu(np.ones((n, n)))
+        _scaling(case, ret, UTPM.lu_factor, names, lambda c: (np.where(up > 0, c, 1.0), 1.0), stats)
 
 
 def prop_eigh(case, stats):
@@ -606,12 +677,13 @@ def prop_eigh(case, stats):
                        what + ': A Q = Q diag(lambda)')
             _orth(Qp, stats, what + ': Q^T Q = I', _orth_tol(case))
             w0, q0 = np.linalg.eigh(Ap[0])
-            sc = max(1.0, float(np.abs(w0).max()))
+            sc = float(np.abs(w0).max()) or 1.0                       # relative to the data (tiny-magnitude class)
             if np.any(np.diff(lp[0]) < -TOL0 * sc):
                 raise Violation('%s: lambda_0 not ascending: %r' % (what, lp[0].tolist()))
             _zeroth(lp[0], w0, stats, what + ': lambda')
-            if n == 1 or np.min(np.diff(w0)) > 1e-3:
+            if n == 1 or np.min(np.diff(w0)) > 1e-3 * sc:
                 _zeroth(Qp[0], q0, stats, what + ': Q')
+    _scaling(case, ret, algopy.eigh, ('lambda', 'Q'), lambda c: (c, 1.0), stats)
 
 
 def prop_eig(case, stats):
@@ -631,6 +703,8 @@ def prop_eig(case, stats):
             sv = np.linalg.svd(Qc[0], compute_uv=False)
             if not (sv[-1] > 1e-6 * sv[0]):
                 raise Violation('%s: Q_0 is singular (singular values %r)' % (what, sv.tolist()))
+    # (no scaling relation for eig: LAPACK's geev returns the eigenpairs of B and of 2^-k B in a different ORDER and with
+    #  different column signs; the relative validity predicates above are the specification)
 
 
 def prop_svd(case, stats):
@@ -653,12 +727,13 @@ def prop_svd(case, stats):
             _orth(Up, stats, what + ': U^T U = I', _orth_tol(case))
             _orth(Vp, stats, what + ': V^T V = I', _orth_tol(case))
             s0 = sp[0]
-            if np.any(s0 < 0) or np.any(np.diff(s0) > TOL0 * max(1.0, float(s0.max()))):
+            if np.any(s0 < 0) or np.any(np.diff(s0) > TOL0 * float(s0.max())):
                 raise Violation('%s: s_0 not descending and non-negative: %r' % (what, s0.tolist()))
             # implied by the predicates above (orthogonal factors, ordered non-negative diagonal): s_0 are THE singular values
             sv = np.linalg.svd(Ap[0], compute_uv=False)
-            if np.max(np.abs(s0 - sv)) > 1e-10 * max(1.0, float(sv.max())):
+            if np.max(np.abs(s0 - sv)) > 1e-10 * float(sv.max()):
                 raise Violation('%s: s_0 = %r, singular values of A_0 are %r' % (what, s0.tolist(), sv.tolist()))
+    _scaling(case, ret, algopy.svd, ('U', 's', 'V'), lambda c: (1.0, c, 1.0), stats)
 
 
 # ---------------------------------------------------------------------------
@@ -682,6 +757,9 @@ def _classes(case):
         c.append('distinct-bases')
     if case.get('lay') == 'T':
         c.append('layout=transposed-view operand')
+    if case.get('base'):
+        c.append('base=' + case['base'].split(',')[0])
+        c.append('base=' + case['base'])
     if case.get('out'):
         c.append('out=' + case['out'])
         c.append('out=%s,op=%s' % (case['out'], case['op']))
